@@ -39,6 +39,7 @@ type vdExt struct {
 type vdPush struct {
 	Kind               string // len32 | crc | varlen
 	Start, HdrEnd, End int    // absolute; End = cursor at pop (-1 while open)
+	DecEnd             int    // absolute end of the buffer of the decoder that read the field
 	Poly               crcPolynomial
 }
 
@@ -342,7 +343,7 @@ func (d *vdTapeDec) push(in pushDecoder) error {
 	if err != nil || d.tp == nil {
 		return err
 	}
-	p := vdPush{Start: d.base + o, HdrEnd: d.base + d.rd.off, End: -1}
+	p := vdPush{Start: d.base + o, HdrEnd: d.base + d.rd.off, End: -1, DecEnd: d.base + len(d.rd.raw)}
 	switch x := in.(type) {
 	case *lengthField:
 		p.Kind = "len32"
@@ -387,8 +388,11 @@ type vdCase struct {
 	Dmg      bool   `json:"dmg"`      // alters a checksummed extent, or a length now disagrees with the data
 	Strict   bool   `json:"strict"`   // everything is consistent (CRCs, enclosing lengths) except ONE length/count, or junk trails inside an extent
 	MustFail bool   `json:"mustfail"` // a push/pop-verified length or CRC field is wrong (all else consistent): must be reported
-	RunVer   int    `json:"runver"`   // >= 0: decode with this version instead of the one the bytes were written in
-	inner    []byte
+	// the damaged length exceeds the bytes that remain in its decoder: the one situation the code documents as
+	// "partial trailing message" (a message cut short at the end of the fetched bytes)
+	TruncOK bool `json:"truncok"`
+	RunVer  int  `json:"runver"` // >= 0: decode with this version instead of the one the bytes were written in
+	inner   []byte
 }
 
 var vdOverflowVarint = []byte{0x80, 0x80, 0x80, 0x80, 0x80, 0x80, 0x80, 0x80, 0x80, 0x7f}
@@ -619,6 +623,7 @@ func vdConsistentCases(s *vdSubject, tp *vdTape, add func(vdCase)) {
 		type dv struct {
 			trig string
 			enc  []byte
+			v    int64
 		}
 		var vals []dv
 		switch p.Kind {
@@ -627,7 +632,7 @@ func vdConsistentCases(s *vdSubject, tp *vdTape, add func(vdCase)) {
 			cand := []struct {
 				trig string
 				v    int64
-			}{{"len=orig-1", orig - 1}, {"len=orig+1", orig + 1}, {"len=0", 0}, {"len=-1", -1}, {"len=minint32", math.MinInt32},
+			}{{"len=orig-1", orig - 1}, {"len=orig+1", orig + 1}, {"len=0", 0}, {"len=-1", -1}, {"len=-2", -2}, {"len=minint32", math.MinInt32}, {"len=bit31", orig - (1 << 31)},
 				{"len=orig/2", orig / 2}, {"len=orig*2", orig * 2}}
 			for k, al := range s.altLens {
 				cand = append(cand, struct {
@@ -640,9 +645,9 @@ func vdConsistentCases(s *vdSubject, tp *vdTape, add func(vdCase)) {
 					continue
 				}
 				if p.Kind == "len32" {
-					vals = append(vals, dv{c.trig, vdI32(int(c.v))})
+					vals = append(vals, dv{c.trig, vdI32(int(c.v)), c.v})
 				} else {
-					vals = append(vals, dv{c.trig, vdVar(c.v)})
+					vals = append(vals, dv{c.trig, vdVar(c.v), c.v})
 				}
 			}
 		case "crc":
@@ -654,7 +659,7 @@ func vdConsistentCases(s *vdSubject, tp *vdTape, add func(vdCase)) {
 				if c.v != cur {
 					e := make([]byte, 4)
 					binary.BigEndian.PutUint32(e, c.v)
-					vals = append(vals, dv{c.trig, e})
+					vals = append(vals, dv{c.trig, e, 0})
 				}
 			}
 		default:
@@ -663,7 +668,8 @@ func vdConsistentCases(s *vdSubject, tp *vdTape, add func(vdCase)) {
 		for _, v := range vals {
 			b := vdSplice(valid, p.Start, w, v.enc)
 			b = vdRefit(tp, b, p.Start, len(v.enc)-w, -1)
-			add(vdCase{Kind: "pushdmg", Trig: v.trig, Prim: "push:" + p.Kind, Caller: "-", Fix: true, MustFail: true, Pos: p.Start, inner: b})
+			truncOK := p.Kind != "crc" && v.v > int64(p.DecEnd-p.Start-len(v.enc))
+			add(vdCase{Kind: "pushdmg", Trig: v.trig, Prim: "push:" + p.Kind, Caller: "-", Fix: true, MustFail: true, TruncOK: truncOK, Pos: p.Start, inner: b})
 		}
 	}
 	// (b) junk
